@@ -36,7 +36,7 @@ PAYLOADS = ['link-abs-file', 'link-abs-dir', 'link-rel-file', 'link-rel-dir', 'd
             'link-to-trash-root', 'link-to-info-dir', 'link-dotdot', 'deep-tree']
 INFONAMES = ['e', 'x.trashinfo', 'new\nline', '.hidden', 'a b', '-rf', '', '.', '..']
 CRAFTED = ('', '.', '..')  # info files '.trashinfo', '..trashinfo', '...trashinfo': no payload can exist
-CMDS = ['empty', 'empty-days', 'rm-star', 'rm-exact', 'empty-trash-dir', 'rm-abs']
+CMDS = ['empty', 'empty-days', 'rm-star', 'rm-exact', 'empty-trash-dir', 'rm-abs', 'empty+unlink-refused', 'rm-star+unlink-refused', 'empty+rmdir-refused']
 VIA = ['direct', 'symlinked-trash-dir', 'symlinked-files-dir']
 
 
@@ -106,9 +106,19 @@ def _case(pk, iname, cmd, via):
             step = C('rm', ['e'], scen.env(), cwd='/v')
         elif c == 'rm-abs':
             step = C('rm', ['/v/w/*'], scen.env(), cwd='/v')
+        elif c in ('empty+unlink-refused', 'empty+rmdir-refused'):
+            step = C('empty', [], scen.env(), cwd='/v')
+        elif c == 'rm-star+unlink-refused':
+            step = C('rm', ['*'], scen.env(), cwd='/v')
         else:
             step = C('empty', ['--trash-dir', '/v/.Trash-1000'], scen.env(), cwd='/v')
-        m, res = scen.run_model(world, [{'snap': '/'}, step, {'snap': '/'}])
+        hook = None
+        if c.endswith('unlink-refused'):
+            # one entry inside the trashed tree cannot be unlinked (read-only directory, non-root user): EACCES once
+            hook = scen.OneShotFault('unlink', 13, pred=lambda a: len(a) > 1 and a[1] is not None)
+        elif c.endswith('rmdir-refused'):
+            hook = scen.OneShotFault('rmdir', 13, pred=lambda a: len(a) > 1 and a[1] is not None)
+        m, res = scen.run_model(world, [{'snap': '/'}, step, {'snap': '/'}], hook=hook)
         before, r, after = res
         label = 'payload=%s:via=%s:cmd=%s' % (PAYLOADS[pk], v, c)
         if name in CRAFTED:
@@ -122,6 +132,8 @@ def _case(pk, iname, cmd, via):
                 continue
             return rt.fail('C11:outside-touched:' + label, '%r changed (removed=%r added=%r changed=%r; stderr %r)' % (
                 p, sorted(removed)[:5], sorted(added)[:5], sorted(changed)[:5], r['err'][-200:]))
+        if hook is not None:
+            return rt.ok()  # with a refused removal the purge may stay incomplete; only 'outside untouched' is demanded
         if r['exc']:
             return rt.fail('C11:traceback:%s:%s' % (r['exc'].split(':')[0], label), r['exc'])
         # the entry under test must be gone (both commands select it)
@@ -138,10 +150,10 @@ def _case(pk, iname, cmd, via):
 def w_main(pk: int, iname: int, cmd: int, via: int) -> str:
     """
     pre: PARTITION is None or pk == PARTITION
-    pre: 0 <= pk < 11 and 0 <= iname < 9 and 0 <= cmd < 6 and 0 <= via < 3
+    pre: 0 <= pk < 11 and 0 <= iname < 9 and 0 <= cmd < 9 and 0 <= via < 3
     post: _ == ''
     """
-    return _case(rt.sel(pk, 11), rt.sel(iname, 9), rt.sel(cmd, 6), rt.sel(via, 3))
+    return _case(rt.sel(pk, 11), rt.sel(iname, 9), rt.sel(cmd, 9), rt.sel(via, 3))
 
 
 def obligations(tier):
@@ -150,5 +162,5 @@ def obligations(tier):
            encodes=['trashcli.lib.path_of_backup_copy.path_of_backup_copy'], bounds="info base name: any str without '/', len<=5"),
         CH('W_payload_x_name_x_cmd_x_via', MOD, 'w_main', timeout=900, partitions=list(range(11)), engine='W', regime='selector',
            encodes=K.EMPTY_FUNCS + K.RM_FUNCS + ['RealRemoveFile2.remove_file2', 'shutil.rmtree (CPython source over the model)'],
-           stubs=K.STUBS, bounds='11 payload shapes x 9 info names (incl. crafted .trashinfo, ..trashinfo, ...trashinfo) x 6 commands x 3 ways of reaching the trash dir'),
+           stubs=K.STUBS, bounds='11 payload shapes x 9 info names (incl. crafted .trashinfo, ..trashinfo, ...trashinfo) x 9 commands (incl. one refused unlink/rmdir inside the trashed tree) x 3 ways of reaching the trash dir'),
     ]
